@@ -172,6 +172,7 @@ class Mir:
         c = self.raw_switch_cond(bi)
         c = re.sub(r"Option::as_(?:mut|ref|deref|deref_mut)\(&(?:mut )?([^()]*(?:\([^()]*\))?[^()]*)\)", r"\1", c)
         t = self.blocks[bi]["t"]
+        c = canon_enum_const(c)
         m = re.match(r"^(Eq|Ne)\((.*), (-?\d+)\)$", c)
         if m and set(t["vals"]) <= {0}:
             # bool switch: vals [0] -> false edge, otherwise -> true edge
@@ -293,6 +294,32 @@ class Mir:
         return conds[-limit:]
 
 
+DISCR = {}      # enum variant path -> discriminant, filled by the caller from the type facts
+
+
+def canon_enum_const(c):
+    """`Eq(x, ipp::model::ValueTag::BegCollection as u8)` is `Eq(x, 55)`: a comparison with a named discriminant and a match on the number are one test."""
+    import re
+    m = re.match(r"^(Eq|Ne)\((.*), ([A-Za-z_][A-Za-z0-9_:]*) as [ui](?:8|16|32|64|size)\)$", c)
+    if m and m.group(3) in DISCR:
+        return "%s(%s, %s)" % (m.group(1), m.group(2), DISCR[m.group(3)])
+    return c
+
+
+def canon_exception(econd, eedge):
+    """An exception written against a bool-tested comparison, in the canonical (condition, edge) form canon_switch produces."""
+    import re
+    c = canon_enum_const(econd)
+    m = re.match(r"^(Eq|Ne)\((.*), (-?\d+)\)$", c)
+    if m:
+        eq = m.group(1) == "Eq"
+        if str(eedge) == "0":
+            return m.group(2), ("otherwise" if eq else m.group(3))
+        if str(eedge) == "otherwise":
+            return m.group(2), (m.group(3) if eq else "otherwise")
+    return econd, eedge
+
+
 def ref_target(m, operand, depth=0):
     """If operand is (a reborrow chain of) `&mut P` / `&P` held in single-def temps, return place_key(P)."""
     ap = operand.get("move") or operand.get("copy")
@@ -404,9 +431,10 @@ def analyse(body, markers, exception_edges, displaced_ok=True):
                 cond = m.switch_cond(b2)
                 for (eplace, econd, eedge), reason in exception_edges.items():
                     # a place is named by its text (parameters by position) or, for let-bound locals, by its type: `<Vec<IppValue>>`
-                    if econd == cond and eplace in (desc, "<%s>" % t["pty"]):
+                    ccond, cedge = canon_exception(econd, eedge)
+                    if (econd == cond or ccond == cond) and eplace in (desc, "<%s>" % t["pty"]):
                         for val in list(tt["vals"]) + ["otherwise"]:
-                            if str(m.canon_edge(b2, val)) == str(eedge):
+                            if str(m.canon_edge(b2, val)) in (str(eedge), str(cedge)) and (econd == cond or str(m.canon_edge(b2, val)) == str(cedge)):
                                 cut.add((b2, val))
                                 used.append("exception: %s|%s -> %s" % (eplace, econd, eedge))
         parent_cut = m.explore(cut_edges=frozenset(cut), cut_blocks=frozenset(cut_blocks))
